@@ -140,17 +140,26 @@ Qed.
 
 Definition first_conn_tokens (h : hdr) : list bytes := conn_tokens (hget h K_CONNECTION).
 
-(* every header named in the FIRST Connection value is removed *)
+(* the tokens the request loop deletes are the tokens of ALL Connection lines (the spec's notion) *)
+Lemma req_conn_tokens_all h : req_conn_tokens h = all_conn_tokens h.
+Proof. unfold req_conn_tokens, conn_values, all_conn_tokens. destruct (hlookup h K_CONNECTION); reflexivity. Qed.
+
+Lemma strip_conn_listed_lookup h k :
+  hlookup (strip_conn_listed h) k =
+  if existsb (fun t => beq (canon_key t) k) (all_conn_tokens h) then None else hlookup h k.
+Proof. unfold strip_conn_listed. rewrite hlookup_fold_hdel, req_conn_tokens_all. reflexivity. Qed.
+
+(* every header named in ANY Connection line is removed *)
 Lemma conn_listed_removed h remote tok :
-  In tok (first_conn_tokens h) -> canon_key tok <> K_XFF ->
+  In tok (all_conn_tokens h) -> canon_key tok <> K_XFF ->
   hlookup (create_upstream_headers remote h) (canon_key tok) = None.
 Proof.
   intros HIn Hx. unfold create_upstream_headers. rewrite add_xff_other by exact Hx.
-  rewrite strip_hop_req_eq. apply hop_fold_none. unfold strip_conn_listed.
-  rewrite hlookup_fold_hdel.
-  assert (E : existsb (fun t => beq (canon_key t) (canon_key tok)) (first_conn_tokens h) = true).
+  rewrite strip_hop_req_eq. apply hop_fold_none.
+  rewrite strip_conn_listed_lookup.
+  assert (E : existsb (fun t => beq (canon_key t) (canon_key tok)) (all_conn_tokens h) = true).
   { apply existsb_exists. exists tok. split; [exact HIn|apply beq_refl]. }
-  unfold first_conn_tokens in E. rewrite E. reflexivity.
+  rewrite E. reflexivity.
 Qed.
 
 (* every hop-by-hop header whose first value is non-empty is removed *)
@@ -169,7 +178,7 @@ Proof.
   destruct (hlookup (strip_conn_listed h) k) eqn:E.
   - rewrite <- Hc. apply hop_fold_removed; [exact HIn|].
     rewrite (hget_ext _ h); [exact Hne|]. rewrite Hc.
-    unfold strip_conn_listed in *. rewrite hlookup_fold_hdel in *.
+    rewrite strip_conn_listed_lookup in *.
     destruct (existsb _ _); [discriminate|reflexivity].
   - apply hop_fold_none. exact E.
 Qed.
@@ -179,20 +188,20 @@ Lemma absent_stays_absent h remote k :
   k <> K_XFF -> hlookup h k = None -> hlookup (create_upstream_headers remote h) k = None.
 Proof.
   intros Hx Hn. unfold create_upstream_headers. rewrite add_xff_other by exact Hx.
-  rewrite strip_hop_req_eq. apply hop_fold_none. unfold strip_conn_listed.
-  rewrite hlookup_fold_hdel. destruct (existsb _ _); [reflexivity|exact Hn].
+  rewrite strip_hop_req_eq. apply hop_fold_none.
+  rewrite strip_conn_listed_lookup. destruct (existsb _ _); [reflexivity|exact Hn].
 Qed.
 
 (* end-to-end headers are preserved *)
 Lemma e2e_preserved h remote k :
   ~ In k gen_hop_headers ->
-  (forall tok, In tok (first_conn_tokens h) -> canon_key tok <> k) ->
+  (forall tok, In tok (all_conn_tokens h) -> canon_key tok <> k) ->
   k <> K_XFF ->
   hlookup (create_upstream_headers remote h) k = hlookup h k.
 Proof.
   intros Hnh Hnc Hx. unfold create_upstream_headers. rewrite add_xff_other by exact Hx.
   rewrite strip_hop_req_eq, hop_fold_kept.
-  - unfold strip_conn_listed. rewrite hlookup_fold_hdel.
+  - rewrite strip_conn_listed_lookup.
     destruct (existsb _ _) eqn:E; [|reflexivity].
     apply existsb_exists in E. destruct E as [tok [H1 H2]]. apply beq_eq in H2.
     exfalso. exact (Hnc tok H1 H2).
@@ -222,14 +231,14 @@ Qed.
 (* ... in the usual situation (X-Forwarded-For not itself declared hop-by-hop by the client) *)
 Lemma xff_folded h remote ip port prior :
   split_host_port remote = Some (ip, port) ->
-  (forall tok, In tok (first_conn_tokens h) -> canon_key tok <> K_XFF) ->
+  (forall tok, In tok (all_conn_tokens h) -> canon_key tok <> K_XFF) ->
   hlookup h K_XFF = Some prior -> prior <> [] ->
   hlookup (create_upstream_headers remote h) K_XFF = Some [join COMMA_SP (prior ++ [ip])].
 Proof.
   intros Hs Hc Hp Hne. rewrite (xff_appended _ _ _ _ Hs).
   assert (E : hlookup (strip_hop_req (strip_conn_listed h)) K_XFF = Some prior).
   { rewrite strip_hop_req_eq, hop_fold_kept.
-    - unfold strip_conn_listed. rewrite hlookup_fold_hdel.
+    - rewrite strip_conn_listed_lookup.
       destruct (existsb _ _) eqn:E; [|exact Hp].
       apply existsb_exists in E. destruct E as [tok [H1 H2]]. apply beq_eq in H2.
       exfalso. exact (Hc tok H1 H2).
@@ -246,7 +255,7 @@ Lemma xff_fresh h remote ip port :
 Proof.
   intros Hs Hp. rewrite (xff_appended _ _ _ _ Hs).
   rewrite strip_hop_req_eq, hop_fold_none; [reflexivity|].
-  unfold strip_conn_listed. rewrite hlookup_fold_hdel. destruct (existsb _ _); [reflexivity|exact Hp].
+  rewrite strip_conn_listed_lookup. destruct (existsb _ _); [reflexivity|exact Hp].
 Qed.
 
 (* ---------- singleJoiningSlash ---------- *)
@@ -568,13 +577,11 @@ Proof.
 Qed.
 
 Definition wit_h2 : hdr := [(K_CONNECTION, [bs "close"%string; bs "X-Secret"%string]); (bs "X-Secret"%string, [bs "v1"%string])].
-Lemma second_connection_line_refuted :
-  exists h remote tok, In tok (all_conn_tokens h) /\
-                       hlookup (create_upstream_headers remote h) (canon_key tok) = Some [bs "v1"%string].
-Proof.
-  exists wit_h2, (bs "192.0.2.7:4711"%string), (bs "X-Secret"%string).
-  split; [vm_compute; tauto|vm_compute; reflexivity].
-Qed.
+(* the witness of the former finding F-C04-1 (a header named in a second Connection line): removed now *)
+Lemma second_connection_line_removed :
+  In (bs "X-Secret"%string) (all_conn_tokens wit_h2) /\ hlookup wit_h2 (bs "X-Secret"%string) = Some [bs "v1"%string] /\
+  hlookup (create_upstream_headers (bs "192.0.2.7:4711"%string) wit_h2) (bs "X-Secret"%string) = None.
+Proof. vm_compute. tauto. Qed.
 
 Lemma response_second_connection_line_refuted :
   exists h tok, In tok (all_conn_tokens h) /\ hlookup (resp_strip h) (canon_key tok) = Some [bs "v1"%string].
